@@ -37,12 +37,17 @@ def gen_case(rng):
     kinds = {c: rng.choice(["bp", "bp", "arr"]) for c in chans}
     subs = rng.random() < 0.3 and not long
     s, ops, meta = build_sequence(rng, regs, SR, N, chans, rng.randint(1, 3 if not long else 2), kinds,
-                                  ["ramp", "ua"], subs=subs, waits=True)
+                                  ["ramp", "ua"], subs=subs, waits=rng.choice([True, 0.6]),
+                                  nseg=rng.choice([None, None, 5]))
     delays = {}
     zero_all = rng.random() < 0.12
     for c in chans:
         d = 0 if zero_all else delay_value(rng, SR)
-        if d or rng.random() < 0.5:
+        redeclared = rng.random() < 0.3
+        if redeclared:
+            # a delay set earlier and then changed (possibly back to 0): only the last value counts
+            ops.append(("SSetDelay", s, c, float(Fraction(rng.choice([2, 4, 7, 29])) / Fraction(SR))))
+        if d or redeclared or rng.random() < 0.5:
             ops.append(("SSetDelay", s, c, d))
         delays[str(c)] = d
         ops += [("SSetAmp", s, c, 2), ("SSetOff", s, c, rng.choice([0, 0.125]))]
